@@ -6,8 +6,6 @@
 \* reaches itself by >= 1 edge) on the current graph.  Implementation state:
 \* the two cached flags  isValid_ (`cacheV`)  and  isRooted_ (`cacheR`).
 \* Queries are actions (they fill the caches).  `Forget` as in Tree.tla.
-\* DAG::rootAt (re-orientation of an arbitrary graph) is outside the statement
-\* and is not modelled.
 EXTENDS TreeDefs
 
 CONSTANTS MaxN, MaxE, EObjs, Forget
@@ -80,6 +78,20 @@ DeleteNode(n) ==
        /\ Inval("DeleteNode") /\ res' = "ok" /\ UNCHANGED <<nextN, nextE>> /\ Ghost
   ELSE Raise
 
+\* rootAt(r): "re-root the DA with the new root (and make the graph a DA if it is not)".
+\* Asserted when that is possible at all (graph connected and simple when read without
+\* directions): every edge keeps its id, its link and its object, some edges are turned
+\* round, afterwards the graph is acyclic and r is its only father-less node.  Which
+\* orientation is chosen is left open (the design explores all, the trace adopts the
+\* one read back).  An absent node is refused.  Other graphs: not asserted (no step).
+RootAtTo(r, E2) ==
+  /\ Orientable(nodes, edges, r)
+  /\ SameLinks(edges, E2) /\ HangsFrom(nodes, E2, r)
+  /\ edges' = E2 /\ Inval("RootAt") /\ res' = "okR" /\ UNCHANGED <<nodes, nextN, nextE, eObj>> /\ Ghost
+RootAt(r) ==
+  IF r \notin nodes THEN Raise
+  ELSE \E F \in SUBSET DOMAIN edges : RootAtTo(r, Flip(edges, F))
+
 \* isValid(): cached flag or fresh evaluation (the empty graph is not asserted, DESIGN 2h)
 QValid == res' = B(Valid) /\ cacheV' = Valid /\ UNCHANGED <<gvars, acyclic, cacheR>>
 \* isRooted(): "has only one node with no father"; the code answers TRUE when
@@ -97,7 +109,7 @@ Next ==
   \/ CreateNode
   \/ \E a, b \in NodeIds, o \in Objs : AddSon(a, b, o) \/ AddFather(a, b, o)
   \/ \E a, b \in NodeIds : RemoveSon(a, b) \/ RemoveFather(a, b)
-  \/ \E n \in NodeIds : DeleteNode(n) \/ QBelow(n)
+  \/ \E n \in NodeIds : DeleteNode(n) \/ QBelow(n) \/ RootAt(n)
   \/ QValid \/ QRooted \/ QStruct
 
 Spec == Init /\ [][Next]_vars
@@ -111,6 +123,12 @@ RootedExact == (res \in {"RT", "RF"} /\ NoFather # {}) => (res = "RT") = (Cardin
 CacheVSound == cacheV => acyclic
 CacheRSound == cacheR => Cardinality(NoFather) = 1
 RaiseKeeps == [][res' = "raise" => UNCHANGED gvars]_vars
+\* an accepted rootAt(r) leaves an acyclic graph hanging from r, made of the same links
+RootAtHangs ==
+  [][res' = "okR" =>
+        /\ SameLinks(edges, edges') /\ eObj' = eObj /\ nodes' = nodes
+        /\ acyclic' /\ Cardinality(Fatherless(nodes', edges')) = 1
+        /\ \A r \in Fatherless(nodes', edges') : ReachFrom(edges', TRUE, {r}) = nodes']_vars   \* all hangs below it
 
 \* reference queries on an acyclic graph are coherent
 RefCoherent ==
